@@ -121,6 +121,26 @@ def parseSpt : Nat → List String → List (Term × SparqlTemplate) → Option 
     | none => none
   | _, _, _ => none
 
+/-- `VAL n (validator shape focus value (A 0|1 | R nsols sols…))*` -/
+def parseVal : Nat → List String → List ((Term × Term × Term × Term) × ValidatorAnswer) →
+    Option (List ((Term × Term × Term × Term) × ValidatorAnswer) × List String)
+  | 0, rest, acc => some (acc, rest)
+  | n+1, v :: sh :: f :: x :: kind :: rest, acc =>
+    match parseTerm v, parseTerm sh, parseTerm f, parseTerm x with
+    | some vt, some st, some ft, some xt =>
+      if kind = "A" then
+        match rest with
+        | b :: rest' => parseVal n rest' (((vt, st, ft, xt), .ask (b = "1")) :: acc)
+        | [] => none
+      else
+        match rest with
+        | k :: rest' => match parseSols (k.toNat?.getD 0) rest' [] with
+          | some (sols, rest'') => parseVal n rest'' (((vt, st, ft, xt), .rows sols) :: acc)
+          | none => none
+        | [] => none
+    | _, _, _, _ => none
+  | _, _, _ => none
+
 /-- `validate <opts…> FOCUS <terms> SHAPES <terms> SG <graph> DG <graph> RX <n> …` -/
 def opValidate (toks : List String) : String :=
   let (o, rest) := parseOpts toks
@@ -136,21 +156,27 @@ def opValidate (toks : List String) : String :=
           | some (dg, "RX" :: n :: rest) =>
             match parseRx (n.toNat?.getD 0) rest [] with
             | some (tbl, rest) =>
-              let (spq, spt) : List ((Term × Term) × List Sol) × List (Term × SparqlTemplate) :=
+              let (spq, spt, vals) : List ((Term × Term) × List Sol) × List (Term × SparqlTemplate) ×
+                  List ((Term × Term × Term × Term) × ValidatorAnswer) :=
                 match rest with
                 | "SPQ" :: n :: rest1 =>
                   (match parseSpq (n.toNat?.getD 0) rest1 [] with
                     | some (q, "SPT" :: m :: rest2) =>
                       (match parseSpt (m.toNat?.getD 0) rest2 [] with
-                        | some (t, _) => (q, t)
-                        | none => (q, []))
-                    | some (q, _) => (q, [])
-                    | none => ([], []))
-                | _ => ([], [])
+                        | some (t, "VAL" :: k :: rest3) =>
+                          (match parseVal (k.toNat?.getD 0) rest3 [] with
+                            | some (vs, _) => (q, t, vs)
+                            | none => (q, t, []))
+                        | some (t, _) => (q, t, [])
+                        | none => (q, [], []))
+                    | some (q, _) => (q, [], [])
+                    | none => ([], [], []))
+                | _ => ([], [], [])
+              let vaf := fun (v sh f x : Term) => (vals.find? (fun e => e.1 = (v, sh, f, x))).map (·.2)
               let sqf := fun (c f : Term) => (spq.find? (fun e => e.1 = (c, f))).map (·.2)
               let sqi := fun (c : Term) => (spt.find? (fun e => e.1 = c)).map (·.2)
               let sg' := sg ++ systemTriples.filter (· ∉ sg)
-              let out := runValidate o sg' dg (rxOfTable tbl) focus useShapes sqf sqi
+              let out := runValidate o sg' dg (rxOfTable tbl) focus useShapes sqf sqi vaf
               match out with
               | .error e => "err " ++ failStr e
               | .ok (conf, rs) => "ok " ++ (if conf then "1" else "0") ++ " " ++ toString rs.length ++
